@@ -19,7 +19,7 @@ func init() { core.Register(prop{}) }
 
 func (prop) ID() string        { return "C05" }
 func (prop) CoqModule() string { return "Gengo.Corr.C05" }
-func (prop) Parallel() int     { return 6 }
+func (prop) Parallel() int     { return 8 }
 
 type input struct {
 	pipe.Scenario            // Entry is unused; the runs are listed in Together
@@ -88,9 +88,9 @@ func reversed(s []string) []string {
 }
 
 func (prop) Generate(r *core.RNG, tier string) []json.RawMessage {
-	n := 30
+	n := 20
 	if tier == "thorough" {
-		n = 220
+		n = 120
 	}
 	var out []json.RawMessage
 	for _, in := range corner() {
@@ -136,7 +136,7 @@ func (prop) Generate(r *core.RNG, tier string) []json.RawMessage {
 			}
 		} else {
 			in.Together = append(in.Together, dirs, reversed(dirs))
-			for k := 0; k < 3 && len(subs) > 1; k++ {
+			for k := 0; k < 2 && len(subs) > 1; k++ {
 				s := append([]string{}, subs[r.Intn(len(subs))]...)
 				for i := range s {
 					j := i + r.Intn(len(s)-i)
@@ -282,6 +282,10 @@ func (prop) Run(raw json.RawMessage, scratch string) core.Result {
 		}
 		res.Coq = fmt.Sprintf("(mk_case %s %s %s\n   %s\n   %s\n   %s\n   %s)", core.CoqBool(in.All), core.CoqBool(in.Force), core.Hex(in.Base),
 			pipe.CoqGens(in.Gens), pipe.CoqTree(together[0].Before), core.CoqList(tr), core.CoqList(sg))
+	}
+	if usesImports {
+		// the import tracker is not modelled: the property is decided on the Go side above; the Coq case carries no runs
+		res.Coq = fmt.Sprintf("(mk_case %s %s %s [] [] [] [])", core.CoqBool(in.All), core.CoqBool(in.Force), core.Hex(in.Base))
 	}
 	res.Nontrivial = compared > 0 && len(in.Module.Pkgs) >= 2
 	res.Tags = []string{fmt.Sprintf("packages:%d", len(in.Module.Pkgs)), fmt.Sprintf("together-runs:%d", len(in.Together))}
